@@ -334,6 +334,59 @@ func checkSort(r *kit.Run, sortType string, list []Triple) {
 		r.Violation("sort-panic/"+sortType, fmt.Sprintf("%s.Sort panicked: %v on %v", sortType, pan, short), Case{Family: "sort", IDType: sortType, List: list})
 		return
 	}
+	if sortType == "elements" {
+		// the per-kind sorts of the typed lists: the entries of one kind, by id, then version
+		for _, kind := range []string{"node", "way", "relation"} {
+			var sub []Triple
+			for _, t := range list {
+				if t.Kind == kind {
+					sub = append(sub, t)
+				}
+			}
+			if len(sub) == 0 {
+				continue
+			}
+			var g []Triple
+			var p interface{}
+			func() {
+				defer func() { p = recover() }()
+				switch kind {
+				case "node":
+					ns := make(osm.Nodes, len(sub))
+					for i, t := range sub {
+						ns[i] = &osm.Node{ID: osm.NodeID(t.Ref), Version: t.Ver}
+					}
+					ns.SortByIDVersion()
+					for _, n := range ns {
+						g = append(g, Triple{Kind: kind, Ref: int64(n.ID), Ver: n.Version})
+					}
+				case "way":
+					ws := make(osm.Ways, len(sub))
+					for i, t := range sub {
+						ws[i] = &osm.Way{ID: osm.WayID(t.Ref), Version: t.Ver}
+					}
+					ws.SortByIDVersion()
+					for _, w := range ws {
+						g = append(g, Triple{Kind: kind, Ref: int64(w.ID), Ver: w.Version})
+					}
+				default:
+					rs := make(osm.Relations, len(sub))
+					for i, t := range sub {
+						rs[i] = &osm.Relation{ID: osm.RelationID(t.Ref), Version: t.Ver}
+					}
+					rs.SortByIDVersion()
+					for _, x := range rs {
+						g = append(g, Triple{Kind: kind, Ref: int64(x.ID), Ver: x.Version})
+					}
+				}
+			}()
+			bump(r, "typed_list_sorts")
+			if w := sortedTriples("elements", sub); p != nil || !sameTriples(g, w) {
+				r.Violation("sort/"+kind+"s.SortByIDVersion", fmt.Sprintf("SortByIDVersion on the %ss of %v...: got %v want %v (panic: %v)", kind, short, head(g, 0), head(w, 0), p),
+					Case{Family: "sort", IDType: sortType, List: list})
+			}
+		}
+	}
 	if !sameTriples(got, want) {
 		at := 0
 		for at < len(got) && at < len(want) && got[at] == want[at] {
